@@ -223,6 +223,14 @@ def run_case(case, ctx):
   c0 = [7.0, 70.0, 700.0]
   extra = [[m, s, c] for m, s, c in parts if s > 0.0]
   lines.append("Q-X : as.polynomial 7.0 70.0 700.0 " + " ".join("%s%s as.polynomial %s" % (m, fnum(s), " ".join(fnum(x) for x in c)) for m, s, c in extra))
+  # modifier-headed definitions without a leading marker act for r > 0 only as well, even when their
+  # arguments (explicit '>=-5' ranges) would be non-zero at r <= 0
+  pa, pb = [2.0, 3.0, 5.0], [7.0, 11.0, 13.0]
+  sa, sb = " ".join(fnum(x) for x in pa), " ".join(fnum(x) for x in pb)
+  lines.append("MS-X : sum(>=-5 as.polynomial %s, >=-5 as.polynomial %s)" % (sa, sb))
+  lines.append("MP-X : product(>=-5 as.polynomial %s, >=-5 as.polynomial %s)" % (sa, sb))
+  lines.append("MT-X : trans(>=-5 as.polynomial %s, as.constant 1.0)" % sa)
+  lines.append("ME-X : >0 sum(>=-5 as.polynomial %s, >=-5 as.polynomial %s)" % (sa, sb))
   text = "[Tabulation]\ntarget : LAMMPS\nnr : 5\ncutoff : 4.0\n\n[Pair]\n%s\n" % "\n".join(lines)
   try:
     tab = routes.read_config(text)
@@ -247,6 +255,29 @@ def run_case(case, ctx):
     if judge(ctx, qparts, fq, r, "potable-no-leading-marker", "as written") in ("err", "bad"):
       return
   ctx.count("default_start_points", len(pts))
+  P = lambda c, r, o: poly(c, r, o)
+  expect = {
+    "MS": lambda r: (P(pa, r, 0) + P(pb, r, 0), P(pa, r, 1) + P(pb, r, 1), P(pa, r, 2) + P(pb, r, 2)),
+    "ME": lambda r: (P(pa, r, 0) + P(pb, r, 0), P(pa, r, 1) + P(pb, r, 1), P(pa, r, 2) + P(pb, r, 2)),
+    "MP": lambda r: (P(pa, r, 0) * P(pb, r, 0), P(pa, r, 1) * P(pb, r, 0) + P(pa, r, 0) * P(pb, r, 1),
+                     P(pa, r, 2) * P(pb, r, 0) + 2 * P(pa, r, 1) * P(pb, r, 1) + P(pa, r, 0) * P(pb, r, 2)),
+    "MT": lambda r: (P(pa, r + 1.0, 0), P(pa, r + 1.0, 1), P(pa, r + 1.0, 2)),
+  }
+  for key, fn in expect.items():
+    f = pots[key]
+    for r in eval_orders([-2.0, -0.5, -1e-9, 0.0, 5e-324, 1e-9, 0.5, 1.0, 2.5], rng):
+      try:
+        got = (f(r), f.deriv(r), f.deriv2(r))
+      except Exception as e:
+        et, fnn = exc_sig(e)
+        ctx.violation("exception", "%s at r=%r: %s %s" % (key, r, et, e), what="exception", exc=et, func=fnn)
+        return
+      want = fn(r) if r > 0 else (0.0, 0.0, 0.0)
+      ctx.count("modifier_default_start_points")
+      if any(abs(g - w) > 1e-9 * (1 + abs(w)) for g, w in zip(got, want)):
+        ctx.violation("modifier_default_start", "%s-X (modifier without leading range marker) at r=%r: value/deriv/deriv2 = %r, expected %r (acts for r > 0 only)" % (key, r, got, want),
+                      what="modifier_default_start")
+        return
   # ---------------- ambiguous duplicates: observational only
   if case.get("ambiguous_dup") and n >= 1:
     m, s, c = parts[0]
